@@ -194,6 +194,7 @@ type writeRes struct {
 	Err  string `json:"err"`
 	Hash string `json:"hash"`
 	Wire int    `json:"wire"` // bytes handed to the connection after the call
+	Tail int    `json:"trailer"` // CRC + alignment bytes still held back by the writer
 }
 
 type runRes struct {
@@ -420,6 +421,7 @@ func oneRun(q req, corr *corrReq) (res runRes) {
 			err = a.WritePacketNoFlush(pk.Tp, body, 0)
 		}
 		wr := writeRes{Hash: hashOf(body), Wire: len(ab.buf) - res.HsEnd}
+		wr.Tail, _ = rpc.VerifWriterPending(a)
 		if err != nil {
 			wr.Err = rpc.VerifErrKind(err)
 		}
